@@ -247,7 +247,7 @@ class Run:
             self.oblige('%s:%s' % (serves, name), False, 'harness failed: ' + out[-1500:])
             self.corr[name] = {'error': out[-500:]}
             return False, summ, []
-        shards = sorted(f for f in os.listdir(outdir) if re.fullmatch(re.escape(shards_prefix) + r'_\d+\.v', f))
+        shards = sorted(f for f in os.listdir(outdir) if re.fullmatch(re.escape(shards_prefix) + r'[A-Z]*_\d+\.v', f))
         res = self.eval_shards(shards, per_shard_timeout)
         total = sum(n for _, n, _, _ in res)
         bad = [(s, b) for s, n, b, ok in res if b != '[]' or not ok]
